@@ -92,7 +92,7 @@ def run(chk):
     items.append(("constructors", constructors))
     run_kernels(chk, heavy + items)
     groups = [
-        ("Point.SetExtendedCoordinates", lambda o: "SetExtendedCoordinates" in o.name, lambda: c13.setext_battery(chk.seed)),
+        ("Point.SetExtendedCoordinates", lambda o: "SetExtendedCoordinates" in o.name, lambda: c13.setext_battery_with_witnesses(chk, base)),
         ("Point.SetBytes", lambda o: o.name.startswith("Point.SetBytes"), lambda: c04.decode_battery(chk.seed)),
         ("Point.Add", lambda o: o.name.startswith("Point.Add["), lambda: ptreplay.battery_binary("P.Add", chk.seed, lambda p, q: ref.ed_add(p, q))),
         ("Point.Subtract", lambda o: o.name.startswith("Point.Subtract["), lambda: ptreplay.battery_binary("P.Subtract", chk.seed, lambda p, q: ref.ed_add(p, ref.ed_neg(q)))),
@@ -108,6 +108,7 @@ def run(chk):
         L1m.settle(chk, obs, bat, key)
     rest = [o for o in chk.obs if id(o) not in taken and not o.ok() and not o.verdict.startswith("uncovered")]
     L1m.settle(chk, rest, lambda: validity_battery(chk.seed), "point formulas (internal)")
+    chk.extra.pop("setext_accept_polys", None)
     chk.samples = [o.j() for o in chk.obs if "well-defined group element" in o.name or "output satisfies" in o.name][:6]
 
 
